@@ -128,7 +128,7 @@ Definition normalize_parsed (e : env) (o : n_opts) (original : str) (has_proto :
           let query0 := if fix_common_mistakes o && negb (is_empty (query sp)) then fix_common_query_mistakes (query sp) else query sp in
           let* host :=
             match hostname sp with
-            | Some (_ :: _) => let* d := decode_punycode_hostname e (oget (hostname sp)) in Ok (Some d)
+            | Some (_ :: _) => let* d := decode_punycode_hostname e (strip (oget (hostname sp))) in Ok (Some d)
             | x => Ok x
             end in
           let prt := match prt with Some p => if (p =? 80) || (p =? 443) then None else Some p | None => None end in
